@@ -67,6 +67,12 @@ Qed.
 Lemma length_remove_first {A} (p : A -> bool) l x : find p l = Some x -> length l = S (length (remove_first p l)).
 Proof. intros H. apply find_remove_first_perm in H. apply Permutation_length in H. exact H. Qed.
 
+Lemma NoDup_app_l {A} (a b : list A) : NoDup (a ++ b) -> NoDup a.
+Proof.
+  induction a as [|x t IH]; simpl; intros H; [constructor|].
+  inversion H; subst. constructor; auto. intros Hi. apply H2. apply in_or_app; auto.
+Qed.
+
 Lemma concat_map_nil {A B} (l : list B) : concat (map (fun _ => @nil A) l) = [].
 Proof. induction l; simpl; auto. Qed.
 
@@ -83,21 +89,26 @@ Proof. induction n; simpl; auto. Qed.
 Lemma hash_initial_size_pos : 0 < hash_initial_size.
 Proof. reflexivity. Qed.
 
+Lemma u64_4n_minus1_pos n : 0 < u64 (u64 (4 * n) - 1).
+Proof.
+  unfold u64, wrapu.
+  replace M64 with (4 * 4611686018427387904) by reflexivity.
+  rewrite Z.mul_mod_distr_l by lia.
+  pose proof (Z.mod_pos_bound n 4611686018427387904 ltac:(lia)) as Hb.
+  set (t := n mod 4611686018427387904) in *.
+  destruct (Z.eq_dec t 0) as [->|Ht].
+  + reflexivity.
+  + rewrite Z.mod_small; lia.
+Qed.
+
 Lemma hash_new_size_pos c n ns : 0 < n -> hash_new_size c n = Some ns -> 0 < ns.
 Proof.
   intros Hn. unfold hash_new_size.
   destruct (u64 (4 * n) <=? c).
-  - intros E; inversion E; subst; clear E. unfold u64, wrapu.
-    replace M64 with (4 * 4611686018427387904) by reflexivity.
-    rewrite Z.mul_mod_distr_l by lia.
-    pose proof (Z.mod_pos_bound n 4611686018427387904 ltac:(lia)) as Hb.
-    set (t := n mod 4611686018427387904) in *.
-    destruct (Z.eq_dec t 0) as [->|Ht].
-    + reflexivity.
-    + rewrite Z.mod_small; lia.
+  - intros E. assert (ns = u64 (u64 (4 * n) - 1)) by congruence. subst ns. apply u64_4n_minus1_pos.
   - destruct (c <=? n / 4); [|discriminate].
     destruct (u64 (n / 4 + 1) <? sc_hash_minimal_size) eqn:E; [discriminate|].
-    intros E2; inversion E2; subst; clear E2.
+    intros E2. assert (ns = u64 (n / 4 + 1)) by congruence. subst ns.
     apply Z.ltb_ge in E. assert (0 < sc_hash_minimal_size) by reflexivity. lia.
 Qed.
 
@@ -128,7 +139,7 @@ Section HashProofs.
 
   Lemma nodupeq_app_l a b : nodupeq (a ++ b) -> nodupeq a.
   Proof.
-    intros [N U]. split; [eapply NoDup_app_remove_r; eauto|].
+    intros [N U]. split; [eapply NoDup_app_l; eauto|].
     intros x y Hx Hy. apply U; apply in_or_app; auto.
   Qed.
 
@@ -228,7 +239,7 @@ Section HashProofs.
       { unfold acc', rehash_put. apply placed_upd; auto. intros x [->|Hx]; auto. }
       destruct (IH acc' Hlen' PL') as [A [B C]]. repeat split; auto.
       rewrite C. unfold acc', rehash_put. rewrite concat_upd_perm by auto.
-      rewrite (concat_nth_perm (slot_of ns k) acc Hj) at 2.
+      rewrite (concat_nth_perm (slot_of ns k) acc Hj).
       simpl. apply Permutation_sym. apply Permutation_middle.
   Qed.
 
@@ -340,8 +351,9 @@ Section HashProofs.
     constructor; unfold HashModel.elements, HashModel.nslots in *; simpl.
     - rewrite concat_upd_perm by auto. rewrite Ql, Qs. simpl. apply perm_skip.
       apply Permutation_cons_inv with (a := x). rewrite <- Ps. rewrite <- P.
-      rewrite (concat_nth_perm i (slots key h) Hi). fold l. rewrite Pl at 1. reflexivity.
-    - rewrite (Permutation_length Qs). simpl. rewrite <- (length_remove_first _ _ _ E). auto.
+      rewrite (concat_nth_perm i (slots key h) Hi). fold l.
+      apply (Permutation_app_tail (concat (upd i [] (slots key h))) (Permutation_sym Pl)).
+    - rewrite (Permutation_length Qs). cbn [length]. rewrite <- (length_remove_first _ _ _ E). auto.
     - rewrite upd_length. apply placed_upd; auto.
       intros y Hy. apply (Permutation_in _ Ql) in Hy. destruct Hy as [<-|Hy].
       + unfold i. apply slot_of_eq; auto.
@@ -397,14 +409,14 @@ Section HashProofs.
       + destruct H as [h' [-> R']]; simpl; auto.
       + rewrite H; simpl; auto.
     - split; auto. simpl. apply (R_perm _ _ HR).
-    - split; [apply truncate_R; auto|reflexivity].
+    - split; [eapply truncate_R; eauto|reflexivity].
     - split; [eapply unlink_R; eauto|reflexivity].
     - split; auto. simpl. rewrite (R_cnt _ _ HR). reflexivity.
   Qed.
 
   Lemma new_R owned links : R (hash_new key owned links) [].
   Proof.
-    constructor; unfold HashModel.elements, HashModel.nslots, hash_new; simpl.
+    constructor; unfold HashModel.elements, HashModel.nslots, hash_new; cbn [slots hcount].
     - rewrite concat_repeat_nil. constructor.
     - reflexivity.
     - intros i x Hx. rewrite nth_repeat_nil in Hx. destruct Hx.
